@@ -83,8 +83,8 @@ inductive ErrK where
 structure Args where
   n : Nat
   raNaN : Nat → Bool      -- isnan(ra[i])
-  intOk : Nat → Bool      -- (int)ra[i] == ra[i]
-  uintOk : Nat → Bool     -- (unsigned)ra[i] == ra[i]
+  intOk : Nat → Bool      -- INT_MIN <= ra[i] <= INT_MAX && (int)ra[i] == ra[i]   (range test first since fba410b)
+  uintOk : Nat → Bool     -- 0 <= ra[i] <= UINT_MAX && (unsigned)ra[i] == ra[i]
   digp : Bool             -- al->dig != NULL
   dig : Nat → Bool        -- al->dig[i] != 0
   d0 : Nat → Bool         -- NaN bits of what the caller left in derivs[]
@@ -155,14 +155,18 @@ def checkArgs (a : Args) (s : St) : Bool × St :=
 def checkConstArg (a : Args) (i : Nat) (s : St) : Bool × St :=
   if a.const i then (true, s) else (false, s.derivError)
 
+/-- `if (!(arg >= INT_MIN && arg <= INT_MAX) || (int)arg != arg) { error(…); return 0; } if (al->derivs) check_const_arg(…); return 1;` -/
 def checkIntArg (a : Args) (m : Mode) (i : Nat) (s : St) : Bool × St :=
   if !a.intOk i then (false, s.argError)
   else if m.derivs then (true, (checkConstArg a i s).2) else (true, s)
 
+/-- same with `!(arg >= 0 && arg <= UINT_MAX) || (unsigned)arg != arg` -/
 def checkUintArg (a : Args) (m : Mode) (i : Nat) (s : St) : Bool × St :=
   if !a.uintOk i then (false, s.argError)
   else if m.derivs then (true, (checkConstArg a i s).2) else (true, s)
 
+/-- `if (!(arg >= 0 && arg <= UINT_MAX) || (unsigned)arg != arg) { error(…); return 0; }
+    if (al->derivs && check_const_arg(al, s_index, "s")) deriv_error(al, DERIVS_NOT_PROVIDED); return 1;` -/
 def checkZeroFuncArgs (a : Args) (m : Mode) (i : Nat) (s : St) : Bool × St :=
   if !a.uintOk i then (false, s.argError)
   else if m.derivs then
